@@ -1102,6 +1102,18 @@ def run_resplit(R, r, n):
                         else:
                             cp_before[1] = "c" * len(vb)
                         R.tags["resplit.write-through-earlier-copy"] += 1
+                        # ... and changes that element to exactly the assigned value (read through a view rebuilt from buffer + offset)
+                        fv = type(cp_before)._from_buffer(cp_before._buffer, int(cp_before._offset))
+                        if kind == "arrays":
+                            got_w = int((fv.f1 if lb > 0 else fv.f0)[(lb if lb > 0 else la) - 1])
+                            want_w = 77
+                        elif kind == "strings":
+                            got_w, want_w = str(fv.f1), "c" * len(vb)
+                        else:
+                            got_w, want_w = str(fv[1]), "c" * len(vb)
+                        if got_w != want_w:
+                            R.fail("C10:set-through-handle-after-update-of-its-source", f"{sx[:200]}: y = T(x); x._update(instance of the same size, "
+                                   f"other division); an element of y assigned {want_w!r} through the handle y reads {got_w!r}", ctx)
                     except Exception:
                         pass
                     now_c = image(cb)
